@@ -301,4 +301,355 @@ theorem go_deriveTables_eq_js (s : Model.SR ℝ) (o : Js.Obj ℝ) (h : ParamSame
     unfold dtDatumG; split_ifs <;> [split <;> rfl; rfl]
   rw [this]; exact hz
 
+/-! ## what `projString` does NOT touch (the derived constants and the datum stay as `NewSR()` / `{}` left them) -/
+
+def KeepG (s s' : Model.SR ℝ) : Prop :=
+  s'.sphere = s.sphere ∧ s'.a2 = s.a2 ∧ s'.b2 = s.b2 ∧ s'.es = s.es ∧ s'.e = s.e ∧ s'.ep2 = s.ep2 ∧ s'.datum = s.datum
+def KeepJ (o o' : Js.Obj ℝ) : Prop :=
+  o'.sphere = o.sphere ∧ o'.a2 = o.a2 ∧ o'.b2 = o.b2 ∧ o'.es = o.es ∧ o'.e = o.e ∧ o'.ep2 = o.ep2 ∧ o'.datum = o.datum
+
+theorem keepG_refl (s : Model.SR ℝ) : KeepG s s := ⟨rfl, rfl, rfl, rfl, rfl, rfl, rfl⟩
+theorem keepG_trans {a b c : Model.SR ℝ} (h1 : KeepG a b) (h2 : KeepG b c) : KeepG a c := by
+  obtain ⟨p1, p2, p3, p4, p5, p6, p7⟩ := h1
+  obtain ⟨q1, q2, q3, q4, q5, q6, q7⟩ := h2
+  exact ⟨q1.trans p1, q2.trans p2, q3.trans p3, q4.trans p4, q5.trans p5, q6.trans p6, q7.trans p7⟩
+theorem keepJ_refl (o : Js.Obj ℝ) : KeepJ o o := ⟨rfl, rfl, rfl, rfl, rfl, rfl, rfl⟩
+theorem keepJ_trans {a b c : Js.Obj ℝ} (h1 : KeepJ a b) (h2 : KeepJ b c) : KeepJ a c := by
+  obtain ⟨p1, p2, p3, p4, p5, p6, p7⟩ := h1
+  obtain ⟨q1, q2, q3, q4, q5, q6, q7⟩ := h2
+  exact ⟨q1.trans p1, q2.trans p2, q3.trans p3, q4.trans p4, q5.trans p5, q6.trans p6, q7.trans p7⟩
+
+theorem setNum_keeps (s s' : Model.SR ℝ) (fld : String) (v : ℝ) (h : Model.setNum s fld v = .ok s') : KeepG s s' := by
+  unfold Model.setNum at h
+  split at h <;> simp only [pure, Except.pure, throw, throwThe, MonadExceptOf.throw, Except.ok.injEq, reduceCtorEq] at h <;>
+    subst h <;> exact keepG_refl _
+theorem setStr_keeps (s s' : Model.SR ℝ) (fld v : String) (h : Model.setStr s fld v = .ok s') : KeepG s s' := by
+  unfold Model.setStr at h
+  split at h <;> simp only [pure, Except.pure, throw, throwThe, MonadExceptOf.throw, Except.ok.injEq, reduceCtorEq] at h <;>
+    subst h <;> exact keepG_refl _
+theorem setFlag_keeps (s s' : Model.SR ℝ) (fld : String) (h : Model.setFlag s fld = .ok s') : KeepG s s' := by
+  unfold Model.setFlag at h
+  split at h <;> simp only [pure, Except.pure, throw, throwThe, MonadExceptOf.throw, Except.ok.injEq, reduceCtorEq] at h <;>
+    subst h <;> exact keepG_refl _
+
+theorem applySpecial_keeps (s s' : Model.SR ℝ) (k v : String) (h : Model.applySpecial s k v = .ok s') : KeepG s s' := by
+  unfold Model.applySpecial at h
+  split at h
+  · cases hm : (v.splitOn ",").mapM (fun s => Model.parseFloat (α := ℝ) s) with
+    | error e => simp only [hm, bind, Except.bind, reduceCtorEq] at h
+    | ok ps => simp only [hm, bind, Except.bind, pure, Except.pure, Except.ok.injEq] at h; subst h; exact keepG_refl _
+  · split at h <;> simp only [pure, Except.pure, Except.ok.injEq] at h <;> subst h <;> exact keepG_refl _
+  · split at h
+    · simp only [pure, Except.pure, Except.ok.injEq] at h; subst h; exact keepG_refl _
+    · cases hp : Model.parseFloat (α := ℝ) v with
+      | error e => simp only [hp, bind, Except.bind, reduceCtorEq] at h
+      | ok x => simp only [hp, bind, Except.bind, pure, Except.pure, Except.ok.injEq] at h; subst h; exact keepG_refl _
+  · split at h <;> simp only [pure, Except.pure, Except.ok.injEq] at h <;> subst h <;> exact keepG_refl _
+  · split at h <;> simp only [pure, Except.pure, Except.ok.injEq] at h <;> subst h <;> exact keepG_refl _
+  · simp only [throw, throwThe, MonadExceptOf.throw, reduceCtorEq] at h
+
+theorem applyKV_keeps (s s' : Model.SR ℝ) (k v : String) (h : Model.applyKV s k v = .ok s') : KeepG s s' := by
+  unfold Model.applyKV at h
+  split at h
+  · cases hp : Model.parseFloat (α := ℝ) v with
+    | error e => simp only [hp, bind, Except.bind, reduceCtorEq] at h
+    | ok x => simp only [hp, bind, Except.bind] at h; exact setNum_keeps _ _ _ _ h
+  · split at h
+    · exact setStr_keeps _ _ _ _ h
+    · split at h
+      · exact setFlag_keeps _ _ _ h
+      · exact applySpecial_keeps _ _ _ _ h
+
+theorem goFold_keeps (l : List (String × Option String)) : ∀ (s s' : Model.SR ℝ), goFold s l = .ok s' → KeepG s s' := by
+  induction l with
+  | nil => intro s s' h; simp only [goFold, List.foldlM_nil, pure, Except.pure, Except.ok.injEq] at h; subst h; exact keepG_refl _
+  | cons kv t ih =>
+    intro s s' h
+    simp only [goFold, List.foldlM_cons, bind, Except.bind] at h
+    cases h1 : Model.applyKV s kv.1 (kv.2.getD "true") with
+    | error e => simp only [h1, reduceCtorEq] at h
+    | ok s1 => simp only [h1] at h; exact keepG_trans (applyKV_keeps _ _ _ _ h1) (ih s1 s' h)
+
+theorem js_applyParam_keeps (o : Js.Obj ℝ) (kv : String × Option String) : KeepJ o (Js.applyParam o kv) := by
+  unfold KeepJ
+  refine ⟨?_, ?_, ?_, ?_, ?_, ?_, ?_⟩ <;>
+    (unfold Js.applyParam; split <;> (try simp only []) <;> (try split) <;> (try split) <;> rfl)
+
+theorem js_fold_keeps (l : List (String × Option String)) : ∀ o : Js.Obj ℝ, KeepJ o (l.foldl Js.applyParam o) := by
+  induction l with
+  | nil => intro o; exact keepJ_refl _
+  | cons kv t ih => intro o; exact keepJ_trans (js_applyParam_keeps o kv) (ih _)
+
+/-! ## the tail of `DeriveConstants`: axis default and datum -/
+
+theorem paramSame_axis (c : Model.SR ℝ) (oc : Js.Obj ℝ) (h : ParamSame c oc) (ax : String) :
+    ParamSame { c with axis := ax } { oc with axis := some ax } := by
+  constructor <;> first
+    | exact h.name | exact h.datumCode | exact h.ellps | exact h.units | exact h.nadgrids | exact h.rf | exact h.lat0
+    | exact h.lat1 | exact h.lat2 | exact h.latts | exact h.long0 | exact h.x0 | exact h.y0 | exact h.k0 | exact h.a
+    | exact h.b | exact h.zone | exact h.fg | exact h.tm | exact h.dp | exact h.ra | exact h.south | rfl
+
+def axG {α : Type} [RTrans α] (json : Model.SR α) : Model.SR α := if json.axis == "" then { json with axis := "enu" } else json
+def axJ {α : Type} [RTrans α] (json : Js.Obj α) : Js.Obj α :=
+  if json.axis.isNone || json.axis == some "" then { json with axis := some "enu" } else json
+theorem go_deriveTail_split {α : Type} [RTrans α] (c : Model.SR α) : Model.deriveTail c =
+    (if (axG c).datum.isNone then { axG c with datum := some (Model.getDatum (axG c)).1, datumParams := (Model.getDatum (axG c)).2 } else axG c) := by
+  unfold Model.deriveTail axG
+  rfl
+theorem js_deriveTail_split {α : Type} [RTrans α] (c : Js.Obj α) : Js.deriveTail c =
+    (if (axJ c).datum.isNone then { axJ c with datum := some (Js.mkDatum (axJ c)) } else axJ c) := by
+  unfold Js.deriveTail axJ
+  rfl
+
+/-- **the tail of `DeriveConstants` = the tail of deriveConstants.js**: the axis default `enu` (absent or empty on either
+side) and the datum object built once (`getDatum` = `datum.js`, `go_getDatum_eq_js`). The port's exported `DatumParams`
+afterwards holds the datum's CONVERTED terms (`getDatum` converts the shared slice in place); proj4js keeps the raw
+terms on the projection — the statement compares the raw ones. -/
+theorem go_deriveTail_eq_js (c : Model.SR ℝ) (oc : Js.Obj ℝ) (h : ParamSame c oc)
+    (hd : c.datum = none) (hod : oc.datum = none) (hes : oc.es = c.es) (hep : oc.ep2 = c.ep2)
+    (hng : c.nadGrids = "") (hcode : c.datumCode ≠ "" ∨ shiftNZ c.datumParams = true) :
+    ParamSame { Model.deriveTail c with datumParams := c.datumParams } (Js.deriveTail oc) ∧
+    (Js.deriveTail oc).axis = some (Model.deriveTail c).axis ∧
+    (∃ dg dj, (Model.deriveTail c).datum = some dg ∧ (Js.deriveTail oc).datum = some dj ∧ DatumSame dg dj) := by
+  -- the axis default on both sides
+  have hax : ∃ ax : String, axG c = { c with axis := ax } ∧ axJ oc = { oc with axis := some ax } := by
+    have ha := h.axis
+    unfold axG axJ
+    by_cases hc : c.axis = ""
+    · refine ⟨"enu", ?_, ?_⟩
+      · simp [hc]
+      · cases hoa : oc.axis with
+        | none => simp
+        | some a =>
+          rw [hoa] at ha; simp only [Option.getD_some] at ha
+          rw [ha, hc]; simp
+    · refine ⟨c.axis, ?_, ?_⟩
+      · have : (c.axis == "") = false := by simpa using hc
+        simp [this]
+      · cases hoa : oc.axis with
+        | none => rw [hoa] at ha; simp only [Option.getD_none] at ha; exact absurd ha.symm hc
+        | some a =>
+          rw [hoa] at ha; simp only [Option.getD_some] at ha
+          have h2 : (some a == some "") = false := by rw [ha]; simpa using hc
+          simp only [Option.isNone_some, h2, Bool.or_self, Bool.false_eq_true, if_false]
+          rw [← ha, ← hoa]
+  obtain ⟨ax, e1, e2⟩ := hax
+  rw [go_deriveTail_split, js_deriveTail_split, e1, e2]
+  simp only [hd, hod, Option.isNone_none, if_true]
+  have hp := paramSame_axis c oc h ax
+  have hds := go_getDatum_eq_js { c with axis := ax } { oc with axis := some ax } hp.datumCode hp.dp hp.a hp.b hes hep hng hcode
+  refine ⟨?_, by first | trivial | rfl, _, _, rfl, rfl, hds⟩
+  constructor <;> first
+    | exact hp.name | exact hp.datumCode | exact hp.ellps | exact hp.units | exact hp.nadgrids | exact hp.axis | exact hp.rf
+    | exact hp.lat0 | exact hp.lat1 | exact hp.lat2 | exact hp.latts | exact hp.long0 | exact hp.x0 | exact hp.y0
+    | exact hp.k0 | exact hp.a | exact hp.b | exact hp.zone | exact hp.fg | exact hp.tm | exact hp.dp | exact hp.ra
+    | exact hp.south | rfl
+
+/-! ## composition: what `proj.Parse` leaves for one definition = what `new Proj(def)` leaves (before `init`) -/
+
+/-- fields the table lookups do not write (Go side) -/
+def KeepT (s s' : Model.SR ℝ) : Prop :=
+  KeepG s s' ∧ s'.nadGrids = s.nadGrids ∧ s'.datumCode = s.datumCode ∧ s'.k0 = s.k0
+theorem keepT_refl (s : Model.SR ℝ) : KeepT s s := ⟨keepG_refl s, rfl, rfl, rfl⟩
+theorem keepT_trans {a b c : Model.SR ℝ} (h1 : KeepT a b) (h2 : KeepT b c) : KeepT a c :=
+  ⟨keepG_trans h1.1 h2.1, h2.2.1.trans h1.2.1, h2.2.2.1.trans h1.2.2.1, h2.2.2.2.trans h1.2.2.2⟩
+
+theorem cpG_keeps (od : Option Dec) (u : Model.SR ℝ) (f : ℝ → Model.SR ℝ) (hf : ∀ v, KeepT u (f v)) : KeepT u (cpG od u f) := by
+  unfold cpG
+  split
+  · split_ifs
+    · exact hf _
+    · exact keepT_refl u
+  · exact keepT_refl u
+
+theorem cp3G_keeps (oa ob orf : Option Dec) (u : Model.SR ℝ) :
+    let j1 := cpG oa u (fun v => { u with a := some v })
+    let j2 := cpG ob j1 (fun v => { j1 with b := some v })
+    KeepT u (cpG orf j2 (fun v => { j2 with rf := some v })) := by
+  intro j1 j2
+  have k1 : KeepT u j1 := cpG_keeps oa u _ (fun v => keepT_refl u)
+  have k2 : KeepT j1 j2 := cpG_keeps ob j1 _ (fun v => keepT_refl j1)
+  exact keepT_trans (keepT_trans k1 k2) (cpG_keeps orf j2 _ (fun v => keepT_refl j2))
+
+theorem deriveTables_keepsG (s : Model.SR ℝ) : KeepT s (Model.deriveTables s) := by
+  rw [go_deriveTables_split]
+  have h1 : KeepT s (dtDatumG s) := by
+    unfold dtDatumG
+    split_ifs
+    · split
+      · exact keepT_refl s
+      · exact keepT_refl s
+    · exact keepT_refl s
+  have h2 : ∀ u : Model.SR ℝ, KeepT u (dtEllG u) := by
+    intro u
+    unfold dtEllG
+    split_ifs
+    · exact cp3G_keeps _ _ _ u
+    · exact keepT_refl u
+  exact keepT_trans h1 (h2 _)
+
+theorem cpJ_keeps (od : Option Dec) (u : Js.Obj ℝ) (f : ℝ → Js.Obj ℝ) (hf : ∀ v, KeepJ u (f v)) : KeepJ u (cpJ od u f) := by
+  unfold cpJ
+  split
+  · exact hf _
+  · exact keepJ_refl u
+
+theorem cp3J_keeps (oa ob orf : Option Dec) (u : Js.Obj ℝ) :
+    let j1 := cpJ oa u (fun v => { u with a := some v })
+    let j2 := cpJ ob j1 (fun v => { j1 with b := some v })
+    KeepJ u (cpJ orf j2 (fun v => { j2 with rf := some v })) := by
+  intro j1 j2
+  have k1 : KeepJ u j1 := cpJ_keeps oa u _ (fun v => keepJ_refl u)
+  have k2 : KeepJ j1 j2 := cpJ_keeps ob j1 _ (fun v => keepJ_refl j1)
+  exact keepJ_trans (keepJ_trans k1 k2) (cpJ_keeps orf j2 _ (fun v => keepJ_refl j2))
+
+theorem deriveTables_keepsJ (o : Js.Obj ℝ) : KeepJ o (Js.deriveTables o) := by
+  rw [js_deriveTables_split]
+  have h1 : KeepJ o (dtDatumJ o) := by
+    unfold dtDatumJ
+    split
+    · split_ifs
+      · split
+        · exact keepJ_refl o
+        · exact keepJ_refl o
+      · exact keepJ_refl o
+    · exact keepJ_refl o
+  have h2 : ∀ u : Js.Obj ℝ, KeepJ u (dtEllJ u) := by
+    intro u
+    unfold dtEllJ
+    split_ifs
+    · exact cp3J_keeps _ _ _ u
+    · exact keepJ_refl u
+  exact keepJ_trans h1 (h2 _)
+
+/-- after `projString`: the derived constants and the datum are as `NewSR()` / `{}` left them, the same on both sides -/
+structure FreshRel (p : Model.SR ℝ) (o : Js.Obj ℝ) : Prop where
+  sp : o.sphere = p.sphere
+  a2 : o.a2 = p.a2
+  b2 : o.b2 = p.b2
+  es : o.es = p.es
+  e : o.e = p.e
+  ep2 : o.ep2 = p.ep2
+  dg : p.datum = none
+  dj : o.datum = none
+
+/-- **`DeriveConstants` = deriveConstants.js as a whole** (table lookups, REGENERATED arithmetic, axis default, datum), from
+`ParamSame` states: the parameters stay the same (`ParamSame`, the port's `DatumParams` read before `getDatum` converted
+them in place), the derived constants `sphere a2 b2 es e ep2` are the same, and the two datum objects are `DatumSame`.
+Hypotheses (all on the port's own state): `a`, and after the lookups `b`, `rf`, `k_0`, are absent or non-zero (proj4js tests
+truthiness); no `+nadgrids`; a datum code is given or the shift terms are not all zero (else `pjdNoDatum` vs `PJD_WGS84`). -/
+theorem go_deriveConstants_eq_js (p : Model.SR ℝ) (o : Js.Obj ℝ) (h : ParamSame p o) (hf : FreshRel p o)
+    (hza : NZ p.a) (hzb : NZ (Model.deriveTables p).b) (hzrf : NZ (Model.deriveTables p).rf) (hzk : NZ p.k0)
+    (hng : p.nadGrids = "") (hcode : p.datumCode ≠ "" ∨ shiftNZ (Model.deriveTables p).datumParams = true) :
+    ParamSame { Model.deriveConstants p with datumParams := (Model.deriveTables p).datumParams } (Js.deriveConstants o) ∧
+    ((Js.deriveConstants o).sphere = (Model.deriveConstants p).sphere ∧ (Js.deriveConstants o).a2 = (Model.deriveConstants p).a2 ∧
+     (Js.deriveConstants o).b2 = (Model.deriveConstants p).b2 ∧ (Js.deriveConstants o).es = (Model.deriveConstants p).es ∧
+     (Js.deriveConstants o).e = (Model.deriveConstants p).e ∧ (Js.deriveConstants o).ep2 = (Model.deriveConstants p).ep2) ∧
+    (Js.deriveConstants o).axis = some (Model.deriveConstants p).axis ∧
+    (∃ dg dj, (Model.deriveConstants p).datum = some dg ∧ (Js.deriveConstants o).datum = some dj ∧ DatumSame dg dj) := by
+  have ht := go_deriveTables_eq_js p o h hza
+  obtain ⟨⟨k1, k2, k3, k4, k5, k6, k7⟩, kn, kd, kk⟩ := deriveTables_keepsG p
+  obtain ⟨j1, j2, j3, j4, j5, j6, j7⟩ := deriveTables_keepsJ o
+  have hcore := go_deriveCore_eq_js (Model.deriveTables p) (Js.deriveTables o) ht.a ht.b ht.rf ht.k0 ht.ra
+    (by rw [j1, k1]; exact hf.sp) (by rw [j2, k2]; exact hf.a2) (by rw [j3, k3]; exact hf.b2) (by rw [j4, k4]; exact hf.es)
+    (by rw [j5, k5]; exact hf.e) (by rw [j6, k6]; exact hf.ep2) hzb hzrf (by rw [kk]; exact hzk)
+  obtain ⟨c1, c2, c3, c4, c5, c6, c7, c8, c9, c10, c11⟩ := hcore
+  have hc : ParamSame (Model.deriveCore (Model.deriveTables p)) (Js.deriveCore (Js.deriveTables o)) := by
+    constructor <;> first
+      | exact c1 | exact c2 | exact c3 | exact c4 | exact c5
+      | exact ht.name | exact ht.datumCode | exact ht.ellps | exact ht.units | exact ht.nadgrids | exact ht.axis
+      | exact ht.lat0 | exact ht.lat1 | exact ht.lat2 | exact ht.latts | exact ht.long0 | exact ht.x0 | exact ht.y0
+      | exact ht.zone | exact ht.fg | exact ht.tm | exact ht.dp | exact ht.south
+  have htail := go_deriveTail_eq_js (Model.deriveCore (Model.deriveTables p)) (Js.deriveCore (Js.deriveTables o)) hc
+    (by show (Model.deriveTables p).datum = none; rw [k7]; exact hf.dg)
+    (by show (Js.deriveTables o).datum = none; rw [j7]; exact hf.dj) c9 c11
+    (by show (Model.deriveTables p).nadGrids = ""; rw [kn]; exact hng)
+    (by
+      show (Model.deriveTables p).datumCode ≠ "" ∨ shiftNZ (Model.deriveTables p).datumParams = true
+      rw [kd]; exact hcode)
+  obtain ⟨t1, t2, t3⟩ := htail
+  refine ⟨t1, ?_, t2, t3⟩
+  -- the tail leaves the derived constants alone
+  have e1 : ∀ c : Model.SR ℝ, (Model.deriveTail c).sphere = c.sphere ∧ (Model.deriveTail c).a2 = c.a2 ∧ (Model.deriveTail c).b2 = c.b2 ∧
+      (Model.deriveTail c).es = c.es ∧ (Model.deriveTail c).e = c.e ∧ (Model.deriveTail c).ep2 = c.ep2 := by
+    intro c
+    rw [go_deriveTail_split]
+    unfold axG
+    refine ⟨?_, ?_, ?_, ?_, ?_, ?_⟩ <;> (split_ifs <;> rfl)
+  have e2 : ∀ c : Js.Obj ℝ, (Js.deriveTail c).sphere = c.sphere ∧ (Js.deriveTail c).a2 = c.a2 ∧ (Js.deriveTail c).b2 = c.b2 ∧
+      (Js.deriveTail c).es = c.es ∧ (Js.deriveTail c).e = c.e ∧ (Js.deriveTail c).ep2 = c.ep2 := by
+    intro c
+    rw [js_deriveTail_split]
+    unfold axJ
+    refine ⟨?_, ?_, ?_, ?_, ?_, ?_⟩ <;> (split_ifs <;> rfl)
+  obtain ⟨g1, g2, g3, g4, g5, g6⟩ := e1 (Model.deriveCore (Model.deriveTables p))
+  obtain ⟨q1, q2, q3, q4, q5, q6⟩ := e2 (Js.deriveCore (Js.deriveTables o))
+  unfold Model.deriveConstants Js.deriveConstants
+  exact ⟨by rw [q1, g1]; exact c6, by rw [q2, g2]; exact c7, by rw [q3, g3]; exact c8, by rw [q4, g4]; exact c9,
+    by rw [q5, g5]; exact c10, by rw [q6, g6]; exact c11⟩
+
+theorem fresh_of_projString (code : String) (hw : WellFormed code) (p : Model.SR ℝ)
+    (hnd : ((partsOf code).map (·.1)).Nodup) (hp : Model.projString code = .ok p) : FreshRel p (Js.projString code) := by
+  rw [go_projString_unfold] at hp
+  rw [js_projString_unfold code hw, dedupKV_nodup _ hnd]
+  cases hf : goFold Model.newSR (((code.splitOn "+").drop 1).map kvOf) with
+  | error e => simp only [hf, Except.map, reduceCtorEq] at hp
+  | ok p1 =>
+    simp only [hf, Except.map, Except.ok.injEq] at hp
+    subst hp
+    obtain ⟨k1, k2, k3, k4, k5, k6, k7⟩ := goFold_keeps _ _ _ hf
+    obtain ⟨j1, j2, j3, j4, j5, j6, j7⟩ := js_fold_keeps (partsOf code) (Js.Obj.empty : Js.Obj ℝ)
+    have fg : KeepG p1 (goFinish p1) := by unfold goFinish; split_ifs <;> exact keepG_refl p1
+    obtain ⟨f1, f2, f3, f4, f5, f6, f7⟩ := fg
+    have fj : ∀ u : Js.Obj ℝ, KeepJ u (match u.datumCode with
+        | some dc => if dc ≠ "WGS84" then { u with datumCode := some dc.toLower } else u
+        | none => u) := by
+      intro u
+      split
+      · split_ifs <;> exact keepJ_refl u
+      · exact keepJ_refl u
+    obtain ⟨h1, h2, h3, h4, h5, h6, h7⟩ := fj (List.foldl Js.applyParam (Js.Obj.empty : Js.Obj ℝ) (partsOf code))
+    constructor
+    · exact (h1.trans j1).trans (Eq.trans rfl (f1.trans k1).symm)
+    · exact (h2.trans j2).trans (Eq.trans rfl (f2.trans k2).symm)
+    · exact (h3.trans j3).trans (Eq.trans rfl (f3.trans k3).symm)
+    · exact (h4.trans j4).trans (Eq.trans rfl (f4.trans k4).symm)
+    · exact (h5.trans j5).trans (Eq.trans rfl (f5.trans k5).symm)
+    · exact (h6.trans j6).trans (Eq.trans rfl (f6.trans k6).symm)
+    · exact (f7.trans k7).trans rfl
+    · exact (h7.trans j7).trans rfl
+
+/-- **`proj.Parse(def)` = `new Proj(def)` up to the projection's `init`, for ONE definition string** (`projString` then
+`DeriveConstants` against projString.js then deriveConstants.js): for a well-formed PROJ.4 string without repeated keys
+that the port's `projString` accepts, both sides end with the same parameters (`ParamSame`: name, datum code,
+ellipsoid, units, `lat_0 … zone`, `x_0 y_0 k_0`, `a b rf`, `to_meter`, `from_greenwich`, `R_A`, `south`, axis), the
+same derived constants (`sphere a2 b2 es e ep2`) and `DatumSame` datum objects — the non-closure components of
+`PipeSame` that `go_pipeline_eq_js` assumes for each end. Hypotheses beyond `go_deriveConstants_eq_js`: `WellFormed`,
+no repeated key, `PmsOK`. -/
+theorem go_parse_eq_js (code : String) (hw : WellFormed code) (p : Model.SR ℝ)
+    (hnd : ((partsOf code).map (·.1)).Nodup) (hpm : PmsOK (partsOf code)) (hp : Model.projString code = .ok p)
+    (hza : NZ p.a) (hzb : NZ (Model.deriveTables p).b) (hzrf : NZ (Model.deriveTables p).rf) (hzk : NZ p.k0)
+    (hng : p.nadGrids = "") (hcode : p.datumCode ≠ "" ∨ shiftNZ (Model.deriveTables p).datumParams = true) :
+    ParamSame { Model.deriveConstants p with datumParams := (Model.deriveTables p).datumParams }
+      (Js.deriveConstants (Js.projString (α := ℝ) code)) ∧
+    ((Js.deriveConstants (Js.projString (α := ℝ) code)).sphere = (Model.deriveConstants p).sphere ∧
+     (Js.deriveConstants (Js.projString (α := ℝ) code)).a2 = (Model.deriveConstants p).a2 ∧
+     (Js.deriveConstants (Js.projString (α := ℝ) code)).b2 = (Model.deriveConstants p).b2 ∧
+     (Js.deriveConstants (Js.projString (α := ℝ) code)).es = (Model.deriveConstants p).es ∧
+     (Js.deriveConstants (Js.projString (α := ℝ) code)).e = (Model.deriveConstants p).e ∧
+     (Js.deriveConstants (Js.projString (α := ℝ) code)).ep2 = (Model.deriveConstants p).ep2) ∧
+    (Js.deriveConstants (Js.projString (α := ℝ) code)).axis = some (Model.deriveConstants p).axis ∧
+    (∃ dg dj, (Model.deriveConstants p).datum = some dg ∧ (Js.deriveConstants (Js.projString (α := ℝ) code)).datum = some dj ∧
+      DatumSame dg dj) :=
+  go_deriveConstants_eq_js p _ (go_projString_eq_js code hw p hnd hpm hp) (fresh_of_projString code hw p hnd hp)
+    hza hzb hzrf hzk hng hcode
+
+/-- non-vacuity of the datum hypothesis and of `NZ`: a named datum; `+towgs84=598.1,73.7,418.2` -/
+example : ("potsdam" : String) ≠ "" ∧ shiftNZ ([5981/10, 737/10, 4182/10] : List ℝ) = true ∧ NZ (some (6377397.155 : ℝ)) ∧
+    NZ (none : Option ℝ) := by
+  refine ⟨by decide, ?_, ?_, ?_⟩
+  · simp only [shiftNZ, Model.listGet, List.getElem?_cons_zero, Option.getD_some]; rnum; norm_num
+  · unfold NZ; norm_num
+  · unfold NZ; simp
+
 end GeomV.C09
